@@ -135,17 +135,13 @@ class RotV:
                     path.assume_optional("so3", c)
             return r
         fs = [[z3.Function(f"{name}_m{i}{j}", z3.IntSort(), z3.RealSort()) for j in range(3)] for i in range(3)]
-        seen = set()
-
         def matf(i):
-            m = [[Sym(fs[a][b](V.lift(i))) for b in range(3)] for a in range(3)]
-            p = V.PATH[0]
-            key = V.lift(i).get_id()
-            if p is not None and so3 and (id(p), key) not in seen:
-                seen.add((id(p), key))
-                for c in so3_constraints(m):
-                    p.assume_optional("so3", c)
-            return m
+            return [[Sym(fs[a][b](V.lift(i))) for b in range(3)] for a in range(3)]
+        if path is not None and so3:
+            # type invariant of the whole batch: every row is in SO(3)  (one quantified optional hypothesis)
+            qi = z3.Int(f"{name}_row")
+            cs = [V._bool_term(c) for c in so3_constraints(matf(Sym(qi))) if is_sym(c)]
+            path.opt.append(("so3", z3.ForAll([qi], z3.And(*cs))))
         return RotV(_n=n, _matf=matf)
 
     def so3_constraints(self):
